@@ -20,6 +20,7 @@ func (f *Fam) recordCommitted() {
 	}
 	st := f.app.Ctx().KVStore(f.app.Keys[posTypes.StoreKey])
 	f.committed[f.app.LastBlockHeight()] = [2][]byte{st.Get(posTypes.ProposerKey), st.Get(posTypes.PrevStateTotalPowerKey)}
+	f.committedParams = f.app.Pos.GetParams(f.app.Ctx()).String()
 }
 
 // monQuery (C14, through the ABCI Query path of the base app): store queries for the two recorded keys at no height
@@ -27,12 +28,31 @@ func (f *Fam) recordCommitted() {
 // a proof. A height that does not exist yet is answered with no value and no proof; a committed height with exactly
 // what was committed at that height or - when that version is gone - with nothing; never with data of another height.
 func (f *Fam) monQuery(fail func(string, string, string)) {
-	if f.inBlock || f.dead || f.app == nil {
+	if f.dead || f.app == nil {
 		return
 	}
 	latest := f.app.LastBlockHeight()
 	if latest < 1 {
 		return
+	}
+	// a module query (no height: the committed state), also in the middle of a block: it answers from what was
+	// committed, whatever the transactions of the running block have written so far
+	{
+		var res abci.ResponseQuery
+		if r := f.guardQuery(func() { res = f.app.Query(abci.RequestQuery{Path: "custom/pos/parameters"}) }); r != "" {
+			fail("query-no-crash", "C14:query-panic", "the pos parameters query panicked: "+r)
+		} else if res.Code == 0 {
+			var p posTypes.Params
+			if err := posTypes.ModuleCdc.UnmarshalJSON(res.Value, &p); err == nil {
+				f.extra["c14:module-queries"]++
+				if f.inBlock {
+					f.extra["c14:module-queries-inside-a-block"]++
+				}
+				if f.committedParams != "" && p.String() != f.committedParams {
+					fail("committed-at-height", "C14:module-query-not-committed-state", fmt.Sprintf("the pos parameters query (inside a block: %v) answered %q, committed: %q", f.inBlock, p.String(), f.committedParams))
+				}
+			}
+		}
 	}
 	keys := [2][]byte{posTypes.ProposerKey, posTypes.PrevStateTotalPowerKey}
 	heights := []int64{0, latest, latest + 1, latest + 2, latest + 1000}
